@@ -9,6 +9,22 @@ COMMON_NOTE = ("Trusted: Lean 4 kernel (+ propext, Classical.choice, Quot.sound 
                "model (lean/Model); the tie to /repo is the correspondence check run on every invocation. ")
 
 CHECKS = {
+ 'C01': dict(
+   text="Theorems: for EVERY prior state of the corrector (any well-formed state: never corrected, corrected, re-wrapped) "
+        "and every geometry, the reported fit (F, s) re-centred to the origin is exactly what the corrected WCS does in "
+        "the plane of the fit (reported = applied; no exactness hypothesis, so reported residuals and every statistic of "
+        "them are the residuals measured through the corrected WCS), and if the fit maps an image source onto its "
+        "reference position the corrected WCS lands it there - gWCS (reference plane and default own plane, arbitrary "
+        "bijective pipeline pieces) and FITS (flat sky). Exact recovery of family members by the fitters is C06. "
+        "Correspondence: the corrector models fed with the REPORTED matrix/shift predict the chart position of every "
+        "source after real fit_wcs / align_wcs(match=None) runs over geometries, histories, fitgeoms, weights. Oracle: "
+        "status, landing error, reported vs measured rmse, fit_RA/DEC, matrix/shift vs truth.",
+   note="FITS curvature and floating-point rounding are tolerances (second-order bound; gWCS 1e-7 arcsec up to 20 arcsec "
+        "corrections, scaling beyond because set_correction differentiates the plane-to-plane map numerically). The "
+        "catalog plumbing of wcsimage (projection into the plane of the fit, index bookkeeping) is exercised by the "
+        "correspondence, not modelled line by line.",
+   technique="Lean 4 proof (composition of the fit result with the corrector state machines) + differential correspondence",
+   ref="5/C01"),
  'C02': dict(
    text="Theorems: for a gWCS corrector in ANY well-formed state (never corrected, corrected, re-wrapped) and ARBITRARY "
         "bijective pipeline pieces (every pointing/roll/distortion/velocity-aberration frame) "
